@@ -24,13 +24,13 @@ def P(theorems, projection, monitor, profiles, types, count, **kw):
 
 PROPS = {
     "C01": P([], "C01", "C01", "races,default,big,stale,budget,groups,reuse", ALL, (1500, 40000)),
-    "C02": P([], "C02", "C02", "default,stale,limits,races,budget,groups,reuse", "FUB,FU,FOB,FO", (2000, 50000)),
+    "C02": P([], "C02", "C02", "default,stale,limits,races,budget,groups,reuse,deque", "FUB,FU,FOB,FO", (2000, 50000)),
     "C03": P(["C03_release_acquire", "C03_side_condition_needed"], "C03", "C03", "drops,stale,races,default,budget,groups,reuse", ALL, (1500, 30000),
              generated_lemmas=["OrderingsInst.orderings_ok", "Calib.layout_ok"], min_events=2,
              trusted_extra=["tools/build.py extract_orderings: regular expressions over inc_strong / dec_strong in src/waker_list.rs",
                             "Orderings.v: my rendering of the C11 release-sequence / fence rules"],
              assumptions=["sequential consistency for everything except the reference count; data-race freedom of the three dependencies is trusted"]),
-    "C04": P([], "C04", "C04", "order,default,races,budget,groups,reuse", ORD, (2000, 50000)),
+    "C04": P([], "C04", "C04", "order,deque,default,races,deque,reuse", ORD, (2000, 50000)),
     "C05": P([], "C05", "C05", "stale,default,races,budget,groups,reuse", ALL, (1500, 40000)),
     "C06": P([], "C06", "C06", "drops,default,stale,budget,groups,reuse", ALL, (2000, 50000)),
     "C07": P([], "C07", "C07", "default,drops,races,limits,budget,groups,reuse", "JA,TJA", (2000, 40000)),
@@ -41,7 +41,7 @@ PROPS = {
     "C12": P([], "C12", "C12", "stale,races,default,big,budget,groups,reuse", ALL, (1500, 40000)),
     "C13": P([], "C13", "C13", "big,default,stale,races,budget,groups,reuse", ALL, (1200, 30000)),
     "C14": P([], "C14", "C14", "sleepy,default,stale,budget,groups,reuse", ALL, (1500, 40000), known_monitor="K14"),
-    "C15": P([], "C15", "C15", "limits,default,order,budget,groups,reuse", COLL, (2000, 50000)),
+    "C15": P([], "C15", "C15", "limits,default,order,budget,groups,reuse,deque", COLL, (2000, 50000)),
     "C16": P([], "C16", "C16", "default,limits,sleepy,budget,groups,reuse", "BO,TBO", (2000, 40000)),
     "C17": P([], "C17", "C17", "default,limits,sleepy,drops,budget,groups,reuse", "FUB,FU,MB,MU,FOB,FO,BU,BO,TBU,TBO", (2000, 50000)),
     "C18": P([], "C18", "C18", "big,default,stale,budget,groups,reuse", ALL, (1200, 20000), min_events=1),
